@@ -399,11 +399,8 @@ def tasks(tier, seed):
     from ..pyvc.driver import verify
     from ..contracts import kv
     ts = [(verify, (c, m, q, v)) for c, m, q, v in kv.ALL]
-    try:
-        from ..contracts import kvnew
-        ts += [(verify, (c, m, q, v)) for c, m, q, v in kvnew.ALL]
-    except ImportError:
-        pass
+    from ..contracts import facade
+    ts += [(verify, (c, m, q, v)) for c, m, q, v in facade.ALL]
     maxlen = 6 if tier == "quick" else 8
     nch = 8 if tier == "quick" else 16
     ts += [(task_accept, (maxlen, c, nch)) for c in range(nch)]
@@ -476,7 +473,8 @@ INFO = dict(
                 "decided exhaustively over all vectors up to the stated length over a 4-value alphabet (bounded stand-in, label B); queries and every "
                 "mutator (valid and invalid requests: result as specified and well-formed, or exception with the payload object untouched) with symbolic "
                 "knot values per shape; all operation sequences up to the stated depth from three start vectors (bounded); fixed table of non-numeric arguments.",
-    functions=["heavy.ImmutableKnotVector.__span_single (V)", "heavy.ImmutableKnotVector.__valid_single (V)", "heavy.ImmutableKnotVector.limits/degree/npts (V)",
+    functions=["knotspace.KnotVector.insert/remove/shift/scale/normalize/__iadd__/__isub__/__imul__/__ior__/__iand__/internal.setter (V: atomicity and affine "
+               "postconditions for all vectors)", "heavy.ImmutableKnotVector.__add__/__sub__ (V)", "heavy.ImmutableKnotVector.__span_single (V)", "heavy.ImmutableKnotVector.__valid_single (V)", "heavy.ImmutableKnotVector.limits/degree/npts (V)",
                "heavy.ImmutableKnotVector.__new__/__is_valid/__get_unique", "heavy.ImmutableKnotVector.__add__/__sub__/span/mult/valid/knots/split",
                "knotspace.KnotVector.insert/remove/shift/scale/normalize/convert/degree/internal/__iadd__/__isub__/__imul__/__itruediv__/__ior__/__iand__/split/copy"],
 )
